@@ -9,13 +9,14 @@ PID = "C16"
 LEAN_MODULE = "NiVerif.Props.C16"
 NAMESPACE = "Props.C16"
 DRIVER = "drivers/C16.lean"
-GEN_MODULES = ["DigitalState", "Geometry", "Args"]
+GEN_MODULES = ["DigitalState", "Geometry", "Args", "TestLoops"]
 EXTRA_LEAN_MODULES = ["NiVerif.Props.Args"]
 THEOREMS = ["table_is_ni", "table_symm", "table_refl", "x_compatible_with_all", "enum_values", "state_test_table",
             "state_test_spec", "bad_state_ValueError", "colStep_spec", "colLoop_spec", "specFailures_succ",
             "sampleLoop_spec", "failures_exact", "default_count", "success_iff_nil", "window_errors",
             "window_always_refused", "char_roundtrip", "gen_test_window_eq_model", "gen_test_window_inside",
-            "Props.Args.gen_arg_to_int_spec", "Props.Args.gen_arg_to_int_plain", "Props.Args.gen_arg_to_uint_eq_prelude", "Props.Args.gen_arg_to_uint_plain", "Props.Args.gen_arg_to_uint_kind_independent"]
+            "Props.Args.gen_arg_to_int_spec", "Props.Args.gen_arg_to_int_plain", "Props.Args.gen_arg_to_uint_eq_prelude", "Props.Args.gen_arg_to_uint_plain", "Props.Args.gen_arg_to_uint_kind_independent",
+            "colBody_eq", "colLoop_acc", "sampleLoop_acc", "gen_test_loops_eq_model", "gen_test_eq_generated"]
 RULE = ("all 64 state pairs and out-of-range values on DigitalState.test; all waveform pairs over the 8 states for "
         "shapes 1x1, 1x2 and 2x1 (samples x signals) exhaustively, a seeded sample of 2x2, seeded larger waveforms "
         "(also bool dtype and values 8..255) with every relation of the window to both waveforms and differing "
